@@ -121,6 +121,63 @@ Fixpoint monitor (m : mon) (obs : list (option (list event * list slot))) : list
     end
   end.
 
+(* ---------------------------------------------------------------- content traits without finaliser *)
+
+(* Nothing is called (and nothing can be printed) when an element of such a type leaves the content
+   of a buffer or when the caller drops a source element: the observed log holds constructor calls
+   only.  The discipline that remains: every stored element is a live one, stored once; whatever
+   else was live has been abandoned.  [monitor_step_nf] is [monitor_step] on the log completed by
+   one [EFini] per abandoned element (TypedMonitor.v: monitor_step_nf_complete). *)
+Definition keep_stored (ts live : list nat) : list nat := filter (fun t => mem_nat t ts) live.
+Definition abandoned (ts live : list nat) : list nat := filter (fun t => negb (mem_nat t ts)) live.
+
+Definition monitor_step_nf (m : mon) (evs : list event) (stored : list slot) : mon + viol :=
+  match mon_events m evs with
+  | inr v => inr v
+  | inl m' =>
+    match slot_tokens stored with
+    | None => inr VStoredBad
+    | Some ts =>
+      match first_dup ts with
+      | Some t => inr (VStoredDup t)
+      | None =>
+        match first_missing ts (mlive m') with
+        | Some t => inr (VStoredDead t)
+        | None => inl (mkmon (keep_stored ts (mlive m')) (mbound m'))
+        end
+      end
+    end
+  end.
+
+Fixpoint monitor_nf (m : mon) (obs : list (option (list event * list slot))) : list (option viol) :=
+  match obs with
+  | [] => []
+  | None :: _ => [Some VFault]
+  | Some (evs, stored) :: r =>
+    match monitor_step_nf m evs stored with
+    | inl m' => None :: monitor_nf m' r
+    | inr v => [Some v]
+    end
+  end.
+
+(* the events of one observed operation completed by the abandon events *)
+Definition complete_evs (m : mon) (evs : list event) (stored : list slot) : list event :=
+  match mon_events m evs, slot_tokens stored with
+  | inl m', Some ts => evs ++ map EFini (abandoned ts (mlive m'))
+  | _, _ => evs
+  end.
+
+(* a whole observed history completed by the abandon events *)
+Fixpoint complete_obs (m : mon) (obs : list (option (list event * list slot)))
+  : list (option (list event * list slot)) :=
+  match obs with
+  | [] => []
+  | None :: r => None :: r
+  | Some (evs, stored) :: r =>
+    Some (complete_evs m evs stored, stored) ::
+    match monitor_step_nf m evs stored with inl m' => complete_obs m' r | inr _ => r end
+  end.
+
 (* ---------------------------------------------------------------- declarative reading *)
 
 Definition is_init (t : nat) (ev : event) : bool :=
